@@ -96,4 +96,54 @@ theorem join_body_eq (l : List Str) (sep : Str) :
   unfold Gen.ListJoin.join_body
   simp [Id.run, pure, sliceJoin_eq_spec]
 
+/-! ### the element strings are distinct
+
+`contains` / `index` / `==` on a `List[String]` compare strings; the model
+compares the element values. The two agree because `elemStr` is injective. -/
+
+/-- reading an element string back -/
+def elemVal : Str → Nat
+  | [] => 0
+  | [115] => 2
+  | [195, 169] => 3
+  | [44] => 4
+  | [83, 49] => 5
+  | [115, 49, 32] => 6
+  | [226, 134, 146, 120] => 7
+  | 115 :: ds => Nat.ofDigitChars 10 (ds.map Char.ofNat) 0
+  | _ => 0
+
+theorem map_ofNat_toNat (cs : List Char) : (cs.map Char.toNat).map Char.ofNat = cs := by
+  induction cs with
+  | nil => rfl
+  | cons c r ih => simp [ih]
+
+theorem elemStr_general (v : Nat) (h : 8 ≤ v ∨ v = 1) :
+    elemStr v = 115 :: (Nat.toDigits 10 v).map Char.toNat := by
+  rcases h with h | h
+  · unfold elemStr
+    split <;> first | omega | rfl
+  · subst h; decide
+
+theorem elemVal_general (ds : List Nat) (h1 : ds ≠ []) (h2 : ds ≠ [49, 32]) :
+    elemVal (115 :: ds) = Nat.ofDigitChars 10 (ds.map Char.ofNat) 0 := by
+  unfold elemVal
+  split <;> simp_all
+
+theorem elemVal_elemStr (v : Nat) : elemVal (elemStr v) = v := by
+  by_cases h : 8 ≤ v ∨ v = 1
+  · rw [elemStr_general v h, elemVal_general, map_ofNat_toNat]
+    · exact Nat.ofDigitChars_ten_toDigits
+    · simp [Nat.toDigits_ne_nil]
+    · intro hc
+      have hm := congrArg (List.map Char.ofNat) hc
+      rw [map_ofNat_toNat] at hm
+      have : ' ' ∈ Nat.toDigits 10 v := by rw [hm]; decide
+      have := Nat.isDigit_of_mem_toDigits (by omega) (by omega) this
+      exact absurd this (by decide)
+  · have : v = 0 ∨ v = 2 ∨ v = 3 ∨ v = 4 ∨ v = 5 ∨ v = 6 ∨ v = 7 := by omega
+    rcases this with h | h | h | h | h | h | h <;> subst h <;> decide
+
+theorem elemStr_injective {v w : Nat} (h : elemStr v = elemStr w) : v = w := by
+  rw [← elemVal_elemStr v, ← elemVal_elemStr w, h]
 end RotoV.ListM
